@@ -371,6 +371,22 @@ static void ras_case(uint64_t idx, void *vctx)
         pixman_image_set_accessors(B.pi, NULL, NULL);
         check_same(g, &A, &B, 1, bg, &rc, "c12-accessor-path-differs", "accessor vs direct rasterisation", desc);
     }
+    /* the same trapezoid through the public edge functions (sample_ceil_y / sample_floor_y / line_fixed_edge_init / rasterize_edges), as documented for callers
+     * that walk edges themselves */
+    if (!vf_failed()) {
+        timg_reset(&B, bg);
+        pixman_fixed_t t = T.top < 0 ? 0 : T.top, b = T.bottom;
+        t = pixman_sample_ceil_y(t, c->bpp);
+        if (pixman_fixed_to_int(b) >= H) b = pixman_int_to_fixed(H) - 1;
+        b = pixman_sample_floor_y(b, c->bpp);
+        if (b >= t && c12_trap_valid(&T)) {
+            pixman_edge_t l, r;
+            pixman_line_fixed_edge_init(&l, c->bpp, t, &T.left, 0, 0);
+            pixman_line_fixed_edge_init(&r, c->bpp, t, &T.right, 0, 0);
+            pixman_rasterize_edges(B.pi, &l, &r, t, b); vf_count_libcalls(3);
+        }
+        check_same(g, &A, &B, 1, bg, &rc, "c12-public-edge-route-differs", "sample_ceil_y/floor_y + line_fixed_edge_init + rasterize_edges vs rasterize_trapezoid", desc);
+    }
     /* pixman_add_traps with the same edges (only when the lines end exactly on top/bottom) */
     if (vL == 0 && vR == 0 && !vf_failed()) {
         pixman_trap_t tr = { { c->X[d[1]], c->X[d[3]], top }, { c->X[d[2]], c->X[d[4]], bot } };
@@ -862,6 +878,133 @@ static void multi_run(const char *name, multi *m)
     vf_space_run(name, N, multi_case, m);
 }
 
+/* (6) the public grid and edge functions.  sample_ceil_y(y) is the smallest grid row >= y, sample_floor_y(y) the largest grid row < y
+ * (rows as derived in c12_ref.h); stepping an initialised edge by n equals initialising it n units lower. */
+#define GRID_WIN (3 * 65536)
+static void gridfn_case(uint64_t idx, void *vctx)
+{
+    (void)vctx;
+    static const int bpps[3] = { 1, 4, 8 };
+    int bpp = bpps[idx % 3]; int64_t k = (int64_t)(idx / 3);
+    int32_t y = (int32_t)(k - GRID_WIN);
+    if (k > 2 * GRID_WIN) { int64_t j = k - 2 * GRID_WIN - 1; y = j < 70000 ? (int32_t)(0x7ffe0000 - 70000 + j) : (int32_t)(-0x7ffe0000 + (j - 70000)); }   /* far rows, short of the saturating ones */
+    c12_grid g = c12_mkgrid(bpp);
+    int64_t base = (int64_t)(y >> 16) * 65536, f = y - base;
+    /* smallest row >= y */
+    int64_t ce;
+    if (f <= g.y0) ce = base + g.y0;
+    else { int64_t kk = (f - g.y0 + g.ystep - 1) / g.ystep; ce = kk < g.ny ? base + g.y0 + kk * g.ystep : base + 65536 + g.y0; }
+    /* largest row < y */
+    int64_t fl;
+    if (f <= g.y0) fl = base - 65536 + g.y0 + (int64_t)(g.ny - 1) * g.ystep;
+    else { int64_t kk = (f - 1 - g.y0) / g.ystep; if (kk > g.ny - 1) kk = g.ny - 1; fl = base + g.y0 + kk * g.ystep; }
+    pixman_fixed_t lc = pixman_sample_ceil_y(y, bpp), lf = pixman_sample_floor_y(y, bpp); vf_count_libcalls(2);
+    vf_outcome((uint64_t)(uint32_t)(lc - y) << 32 | (uint32_t)(y - lf));
+    if (lc != ce) vf_violation("c12-sample-ceil-y", "pixman_sample_ceil_y(%d, %d) = %d, the smallest sample row >= y is %lld", y, bpp, lc, (long long)ce);
+    if (lf != fl) vf_violation("c12-sample-floor-y", "pixman_sample_floor_y(%d, %d) = %d, the largest sample row < y is %lld", y, bpp, lf, (long long)fl);
+}
+/* Edge state.  An initialised edge at sample row y stands for the exact position X(y) = x_top + (y - y_top) * DX / DY of its line:
+ *     x * dy + signdx * e + (signdx > 0 ? dy : 0)  ==  x_top * dy + (y - y_top) * DX      with  -dy <= e <= 0
+ * (the representation-independent reading of the Bresenham pair (x, e)).  The recorded finding c12-edge-one-ulp is that pixman_edge_step
+ * does not store the new error term when the jump produces no carry; a state that differs from the exact one is classified as that finding
+ * only if it equals, field for field, what that one omission produces (m_step with lossy = 1), otherwise it is a violation. */
+typedef struct { int64_t x, e, stepx, signdx, dy, dx; int ovf; } medge;
+static void m_step(medge *m, int64_t n, int lossy)
+{
+    int64_t sx = n * m->stepx; if (sx > INT32_MAX || sx < INT32_MIN) m->ovf = 1;
+    m->x += sx;
+    int64_t ne = m->e + n * m->dx;
+    if (n >= 0) {
+        if (ne > 0) { int64_t nx = (ne + m->dy - 1) / m->dy; m->e = ne - nx * m->dy; m->x += nx * m->signdx; }
+        else if (!lossy) m->e = ne;
+    } else {
+        if (ne <= -m->dy) { int64_t nx = (-ne) / m->dy; m->e = ne + nx * m->dy; m->x -= nx * m->signdx; }
+        else if (!lossy) m->e = ne;
+    }
+    if (m->x > INT32_MAX || m->x < INT32_MIN) m->ovf = 1;
+}
+static void m_init(medge *m, const pixman_line_fixed_t *l, int64_t y, int lossy, int64_t *xtop, int64_t *ytop, int64_t *DX)
+{
+    const pixman_point_fixed_t *t = l->p1.y <= l->p2.y ? &l->p1 : &l->p2, *b = l->p1.y <= l->p2.y ? &l->p2 : &l->p1;
+    int64_t dx = (int64_t)b->x - t->x, dy = (int64_t)b->y - t->y;
+    m->ovf = 0; m->x = t->x; m->e = 0; m->dy = dy; m->dx = 0; m->stepx = 0; m->signdx = 0;
+    if (dx >= 0) { m->signdx = 1; m->stepx = dx / dy; m->dx = dx % dy; m->e = -dy; }
+    else { m->signdx = -1; m->stepx = -(-dx / dy); m->dx = -dx % dy; m->e = 0; }
+    m_step(m, y - t->y, lossy);
+    *xtop = t->x; *ytop = t->y; *DX = dx;
+}
+/* 0 exact, 1 the recorded omission, 2 anything else */
+static int edge_judge(const pixman_edge_t *e, const medge *lossy, int64_t xtop, int64_t ytop, int64_t DX, int64_t y)
+{
+    __int128 q = (__int128)e->x * e->dy + (__int128)e->signdx * e->e + (e->signdx > 0 ? e->dy : 0);
+    __int128 want = (__int128)xtop * e->dy + (__int128)(y - ytop) * DX;
+    if (q == want && e->e <= 0 && e->e >= -(int64_t)e->dy) return 0;
+    if (e->x == lossy->x && e->e == lossy->e && e->dy == lossy->dy && e->dx == lossy->dx && e->stepx == lossy->stepx && e->signdx == lossy->signdx) return 1;
+    return 2;
+}
+static const int32_t ES_X[7] = { 0, 1, 65536, 3 * 65536 + 7, -2 * 65536 - 1, 40000, 1000 * 65536 };
+static const int32_t ES_DY[5] = { 1, 3, 65536, 2 * 65536 + 5, 10 * 65536 - 1 };
+static const int32_t ES_A[6] = { 0, 1, 2185, 65535, 65536 + 4369, -7 };          /* y_start - y_top */
+static const int ES_N[12] = { 0, 1, 2, 3, 5, 17, 4369, 65536, -1, -2, -5, -4369 };
+static void edgestep_case(uint64_t idx, void *vctx)
+{
+    (void)vctx;
+    int dims[6] = { 7, 7, 5, 6, 12, 3 }, v[6]; vf_decode(idx, dims, 6, v);
+    static const int bpps[3] = { 1, 4, 8 };
+    int bpp = bpps[v[5]]; int32_t ytop = 65536 / 2 + 3;
+    pixman_line_fixed_t ln = { { ES_X[v[0]], ytop }, { ES_X[v[1]], ytop + ES_DY[v[2]] } };
+    int32_t a = ytop + ES_A[v[3]]; int n = ES_N[v[4]];
+    medge m1, m2; int64_t xt, yt, DX;
+    m_init(&m1, &ln, a, 1, &xt, &yt, &DX); m_step(&m1, n, 1);
+    m_init(&m2, &ln, (int64_t)a + n, 1, &xt, &yt, &DX);
+    if (m1.ovf || m2.ovf) return;                 /* n * stepx leaves the 32-bit range: not a legal use of the edge functions */
+    pixman_edge_t e1, e2;
+    pixman_line_fixed_edge_init(&e1, bpp, a, &ln, 0, 0);
+    pixman_edge_step(&e1, n);
+    pixman_line_fixed_edge_init(&e2, bpp, a + n, &ln, 0, 0); vf_count_libcalls(3);
+    vf_outcome(((uint64_t)(uint32_t)e2.x << 32) ^ (uint64_t)(uint32_t)e2.e ^ ((uint64_t)(uint32_t)e1.e << 13));
+    int j1 = edge_judge(&e1, &m1, xt, yt, DX, (int64_t)a + n), j2 = edge_judge(&e2, &m2, xt, yt, DX, (int64_t)a + n);
+    if (n != 0 && DX != 0) vf_count_nontrivial(1);
+    if (j2 == 2)
+        vf_violation("c12-edge-init-wrong", "line (%d,%d)-(%d,%d) depth %d: the edge initialised at y=%d has x=%d e=%lld dy=%d signdx=%d, which stands for neither the exact position of the line there "
+                     "nor the position with the recorded carry-less omission (x=%lld e=%lld)", ln.p1.x, ln.p1.y, ln.p2.x, ln.p2.y, bpp, a + n, e2.x, (long long)e2.e, e2.dy, e2.signdx, (long long)m2.x, (long long)m2.e);
+    else if (j1 == 2)
+        vf_violation("c12-edge-step-wrong", "line (%d,%d)-(%d,%d) depth %d: the edge initialised at y=%d and stepped by %d has x=%d e=%lld, which stands for neither the exact position of the line at y=%d "
+                     "nor the position with the recorded carry-less omission (x=%lld e=%lld)", ln.p1.x, ln.p1.y, ln.p2.x, ln.p2.y, bpp, a, n, e1.x, (long long)e1.e, a + n, (long long)m1.x, (long long)m1.e);
+    else if (j1 == 1 || j2 == 1)
+        vf_violation("c12-edge-one-ulp", "line (%d,%d)-(%d,%d) depth %d: edge initialised at y=%d and stepped by %d: x=%d e=%lld; initialised at y=%d: x=%d e=%lld; one of them lags the exact position by less "
+                     "than one ulp in exactly the way the missing store of the error term on a carry-less jump produces", ln.p1.x, ln.p1.y, ln.p2.x, ln.p2.y, bpp, a, n, e1.x, (long long)e1.e, a + n, e2.x, (long long)e2.e);
+    if (vf_failed()) return;
+    /* the same line given bottom-up, and shifted by whole pixels through the offset arguments: identical state */
+    pixman_line_fixed_t rev = { ln.p2, ln.p1 }, sh = { { ln.p1.x - 2 * 65536, ln.p1.y + 65536 }, { ln.p2.x - 2 * 65536, ln.p2.y + 65536 } };
+    pixman_edge_t e3, e4;
+    pixman_line_fixed_edge_init(&e3, bpp, a + n, &rev, 0, 0);
+    pixman_line_fixed_edge_init(&e4, bpp, a + n, &sh, 2, -1); vf_count_libcalls(2);
+#define SAME_EDGE(p, q) ((p).x == (q).x && (p).e == (q).e && (p).stepx == (q).stepx && (p).signdx == (q).signdx && (p).dy == (q).dy && (p).dx == (q).dx && \
+                         (p).stepx_small == (q).stepx_small && (p).stepx_big == (q).stepx_big && (p).dx_small == (q).dx_small && (p).dx_big == (q).dx_big)
+    if (!SAME_EDGE(e3, e2))
+        vf_violation("c12-edge-init-direction", "line (%d,%d)-(%d,%d) depth %d at y=%d: given bottom-up the edge is x=%d e=%lld stepx=%d, top-down x=%d e=%lld stepx=%d",
+                     ln.p1.x, ln.p1.y, ln.p2.x, ln.p2.y, bpp, a + n, e3.x, (long long)e3.e, e3.stepx, e2.x, (long long)e2.e, e2.stepx);
+    if (!SAME_EDGE(e4, e2))
+        vf_violation("c12-edge-init-offsets", "line (%d,%d)-(%d,%d) depth %d at y=%d: moved by (-2,+1) pixels and given offsets (2,-1) the edge is x=%d e=%lld, unmoved x=%d e=%lld",
+                     ln.p1.x, ln.p1.y, ln.p2.x, ln.p2.y, bpp, a + n, e4.x, (long long)e4.e, e2.x, (long long)e2.e);
+    /* the multi-row steps the rasterisers use: small = one sample row, big = last row of a pixel to the first row of the next */
+    {
+        c12_grid g = c12_mkgrid(bpp);
+        int64_t small = g.ystep, big = 65536 - (int64_t)(g.ny - 1) * g.ystep;
+        /* stepx_small/dx_small must equal the jump of `small` unit rows: small*stepx + carries of small*dx */
+        int64_t nes = small * (int64_t)e2.dx, neb = big * (int64_t)e2.dx;
+        int64_t ws = small * (int64_t)e2.stepx + (nes / e2.dy) * e2.signdx, wds = nes % e2.dy;
+        int64_t wb = big * (int64_t)e2.stepx + (neb / e2.dy) * e2.signdx, wdb = neb % e2.dy;
+        if (bpp == 1) { ws = wb = (int64_t)65536 * e2.stepx + ((int64_t)65536 * e2.dx / e2.dy) * e2.signdx; wds = wdb = (int64_t)65536 * e2.dx % e2.dy; }
+        if (ws >= INT32_MIN && ws <= INT32_MAX && wb >= INT32_MIN && wb <= INT32_MAX &&
+            (e2.stepx_small != ws || e2.dx_small != wds || e2.stepx_big != wb || e2.dx_big != wdb))
+            vf_violation("c12-edge-multi-step", "line (%d,%d)-(%d,%d) depth %d: stepx_small=%d dx_small=%d stepx_big=%d dx_big=%d, but %lld / %lld unit rows of stepx=%d dx=%d dy=%d are %lld+%lld/dy and %lld+%lld/dy",
+                         ln.p1.x, ln.p1.y, ln.p2.x, ln.p2.y, bpp, e2.stepx_small, e2.dx_small, e2.stepx_big, e2.dx_big, (long long)small, (long long)big, e2.stepx, e2.dx, e2.dy,
+                         (long long)ws, (long long)wds, (long long)wb, (long long)wdb);
+    }
+}
+
 int main(int argc, char **argv)
 {
     vf_init(argc, argv, "C12", "exploration");
@@ -961,6 +1104,9 @@ int main(int argc, char **argv)
             multi_run(nm, &m);
         }
     }
+    /* (6) public grid / edge functions */
+    vf_space_run("public-sample-ceil-floor-y", 3ull * (2 * GRID_WIN + 1 + 140000), gridfn_case, NULL);
+    vf_space_run("public-edge-init-step", 7ull * 7 * 5 * 6 * 12 * 3, edgestep_case, NULL);
     /* (5) composite_trapezoids route independence */
     {
         pixman_format_code_t dfm[] = { PIXMAN_a8, PIXMAN_a8r8g8b8, PIXMAN_a4, PIXMAN_a1 };
